@@ -8,7 +8,7 @@ from .common import viol
 from ..steps import Divergent, Inconclusive
 
 ID = "C10"
-RUNS = {"quick": 1600, "thorough": 24000}
+RUNS = {"quick": 1600, "thorough": 12000}
 REAL = common.REAL
 SIMULATED = common.SIMULATED
 ASSUMPTIONS = [
@@ -224,11 +224,11 @@ def gen(rng, tier, ctx):
         elif r < 0.775 and handles:
             # two threads of the caller solve through the same object at the same time
             op = {"op": "solve_threads", "h": rng.choice(handles), "n": rng.choice([2, 2, 3])}
-        elif r < 0.79:
+        elif r < 0.81:
             # the caller edits its own description in place (it is the caller's data); objects built from it
             # earlier and fresh ones now hold the same - new - description
             op = {"op": "edit", "d": rng.randrange(nd), "seed": rng.randint(0, 2 ** 32)}
-        elif r < 0.83:
+        elif r < 0.84:
             op = {"op": "aux", "h": rng.choice(handles), "what": rng.choice(["check_game", "count_transitions", "init_states"])}
         elif r < 0.93:
             k = rng.randint(1, nd)
@@ -248,6 +248,11 @@ def gen(rng, tier, ctx):
         if op["op"] in ("solve", "solve_fresh", "batch") and rng.random() < 0.25:
             op["scribble"] = True       # the caller edits the strategies / vectors it was handed
         opl.append(op)
+        if op["op"] == "edit" and handles:
+            # ... and goes on using the objects it built before (and new ones)
+            for h_ in rng.sample(handles, min(len(handles), 2)):
+                opl.append({"op": "solve", "h": h_})
+            opl.append({"op": "solve_fresh", "d": op["d"], "prune": rng.random() < 0.65})
         if nd >= 2 and op["op"] == "batch" and rng.random() < 0.25:
             # ... and two processes doing so at the same time, followed by an ordinary batch over the same games
             da = rng.sample(range(nd), rng.randint(1, nd))
@@ -359,6 +364,7 @@ def execute(spec, w, ctx):
     snaps = [common.fields_canon(d, F) for d in live]
     snap_e = [enc({k: d.get(k) for k in F}) for d in live]
     handles = {}
+    alts = {}           # handle id -> earlier versions of its description (before in-place edits by the caller)
     events, states = [], []
     discards, solved = {}, {}
     res = {"events": events, "states": states, "discards": discards, "violation": None}
@@ -441,6 +447,12 @@ def execute(spec, w, ctx):
                         "pristine reference (%s steps) and was stopped: %s" % (d, spec["descs"][d].get("tag"), prune,
                                                                              r["steps"], s.get("info")),
                         "steps-discrepancy")
+        if not ops.same_result(s, r) and handle is not None and any(
+                ops.same_result(s, common.ref_solve(ctx, old_e, prune)) for old_e in alts.get(op.get("h"), [])):
+            # an object built before the caller edited its lists in place may answer for the description it was
+            # built from (it copied) or for the current one (it shares the lists): both are "the same description"
+            w.probe("old-object-answers-for-the-description-it-was-built-from")
+            return None
         if not ops.same_result(s, r):
             return viol("I10.2", i_op,
                         "solve #%d of description %d (%s, prune=%s%s) differs from the pristine reference: got %s, "
@@ -488,6 +500,9 @@ def execute(spec, w, ctx):
             return viol("I10.2", i_op, "%d caller threads solving description %d through one object: did not finish: %s %s" % (
                 n, d, out["status"], out.get("etype") or out.get("info") or ""), "outcome-kind-differs")
         for k, x in enumerate(results):
+            if x is not None and not ops.same_result(x, r) and any(
+                    ops.same_result(x, common.ref_solve(ctx, old_e, prune)) for old_e in alts.get(op.get("h"), [])):
+                continue        # (an object built before an in-place edit may answer for the description it was built from)
             if x is None or not ops.same_result(x, r):
                 return viol("I10.2", i_op, "%d caller threads solving description %d (%s, prune=%s) through one object at the same time: "
                             "thread %d got %s, the pristine reference is %s" % (n, d, spec["descs"][d].get("tag"), prune, k,
@@ -592,6 +607,8 @@ def execute(spec, w, ctx):
             v = do_quiet(i_op, op)
         elif kind == "edit":
             if op["d"] < len(live):
+                for hid_, (_obj, dd_) in handles.items():
+                    alts.setdefault(hid_, []).append(snap_e[dd_])
                 what = _edit_in_place(live[op["d"]], op.get("seed", 0))
                 events.append([i_op, "edit", op["d"], what])
                 if what:
